@@ -8,6 +8,7 @@ import Revm.Proofs.EvmLinkStatic4
 import Revm.Proofs.EvmLinkGasInv4
 import Revm.Proofs.EvmLinkSame
 import Revm.Proofs.EvmLinkEther8
+import Revm.Proofs.EvmLinkStatic6
 /-! C01Link — the whole-transaction model `Revm.Model.Evm.transact` (C01) SATISFIES the component properties.
 
 `Evm.transact` (EvmTx / EvmFrame / EvmLoop / EvmHost) was written independently of the component models that carry the
@@ -24,7 +25,8 @@ warm (C34) · 5 static mode (C10) · 6 ether conservation (C08).
 
 What is hypothesised and not proved here: `loadSender … = .ok …` (the journal can load the sender: no `unwrap` panic in
 the journal model, the code store knows the sender's code hash); for C34 the history `lockRun … = some l` leading to the
-world's journal; for the static frame theorem see `FullStatement_static_frame_state_equal`.
+world's journal. The static frame statement for whole-EVM runs (`FullStatement_static_frame_state_equal`) is proved:
+`static_frame_state_equal`.
 The frame machine's guarantee (`FrameAccounting`: the first frame gives back at most `gas_limit − initial_gas`, the
 visible hypothesis of C09 and of C01 `transact_gas_bounds`) IS proved here, through `Evm.runLoop`
 (`evm_frame_accounting`), so the gas and fee corollaries carry no such hypothesis. -/
@@ -669,17 +671,51 @@ theorem evm_static_host_world_equal (he : HostEnv) (w w1 : World) (s : Interp.IS
 
 /-- the full frame statement on the whole-EVM model: in every state `Evm.runLoop` passes while a static frame `f` is
 still open (`StepsAbove`: more than `rest.length` frames on the stack), the world state equals the world state when
-`f` started to run. NOT proved here; `evm_static_step_no_mutation`, `evm_static_inherited` and
-`evm_static_host_world_equal` are its instruction-level and host-level parts. Missing: (1) `is_static` of a frame is
-kept by every handler (`Model.Interp` never writes the field, but C25's `Core` relation does not track it: one lemma
-per primitive); (2) `make_call_frame` / `call_return` as journal histories (`load_account_delegated`, `checkpoint`,
-touch / transfer, `load_code`, `commit` / `revert i` with the index bookkeeping of `JournalAbs.Run.cps`), after which
-C10 `static_frame_state_equal` applies to the whole sub-run. -/
+`f` started to run. PROVED below (`static_frame_state_equal`). -/
 def FullStatement_static_frame_state_equal : Prop :=
   ∀ (cfg : Cfg) (f : JFrame) (rest : List JFrame) (w : World) (n : Next Journal.Checkpoint),
     f.interp.isStatic = true → LoopInv (f :: rest) w → Static.BalOk w.db w.js →
     StepsAbove cfg rest.length (.run (f :: rest) w) n →
     ∀ stack' w', n = .run stack' w' → Static.WorldEq w.db w'.js w.js
+
+/-- LINK (C10 on EvmFrame): `make_call_frame` for a call a static frame hands out (`StaticCall`: static again, value 0
+or a transfer of the frame to itself) keeps C10's invariant `Proofs.Static.Inv` — world state equal to the start, only
+benign journal entries above the start level, every checkpoint handed out since inside that region (`SW`); a frame it
+opens is static, a call frame, and its checkpoint is one of those handed out -/
+theorem evm_static_make_call_frame (db : Journal.Db) (L : Nat) (s0 : Journal.JState) (hb0 : Static.BalOk db s0)
+    (cps : List Journal.Checkpoint) (cfg : Cfg) (w w' : World) (i : Interp.CallInputs) (mem : Memory.SharedMemory)
+    (fr : FrameOrResult Journal.Checkpoint) (h : SW db L s0 cps w) (hsc : StaticCall i)
+    (hmk : makeCallFrame journalOps cfg w i mem = .ok (fr, w')) :
+    ∃ cps', SW db L s0 cps' w' ∧ (∀ c ∈ cps, c ∈ cps') ∧ ∀ f, fr = .frame f →
+      f.checkpoint ∈ cps' ∧ f.interp.isStatic = true ∧ ∃ rs re, f.kind = .call rs re :=
+  sw_makeCallFrame hb0 h hsc hmk
+
+/-- LINK (C10 on EvmFrame): `call_return` of a frame opened inside the static region (commit, or revert to its
+checkpoint) keeps the invariant -/
+theorem evm_static_call_return (db : Journal.Db) (L : Nat) (s0 : Journal.JState) (hb0 : Static.BalOk db s0)
+    (cps : List Journal.Checkpoint) (w w' : World) (cp : Journal.Checkpoint) (r r' : Interp.ChildResult)
+    (h : SW db L s0 cps w) (hcp : cp ∈ cps) (hr : callReturn journalOps w cp r = .ok (r', w')) :
+    SW db L s0 cps w' :=
+  sw_callReturn hb0 h hcp hr
+
+/-- COROLLARY (C10 `static_frame_state_equal` for whole-EVM runs): **the world state inside a static frame never
+changes.** For every configuration, every static frame `f` on any stack, every world with 256-bit balances: in every
+state `run_the_loop` passes while `f` is still open — after any number of instructions of `f` and of the frames it
+calls, at any nesting, including sub-calls that revert or fail with `StateChangeDuringStaticCall` — accounts (balance,
+nonce, code), storage, transient storage and logs are those `f` started on. Parts: `is_static` is kept by every handler
+(`evm_step_gas_accounting`: `Kept`), a static frame only hands out `StaticCall`s and non-mutating host requests
+(`evm_static_step_no_mutation`), host answers / `make_call_frame` / `call_return` keep C10's invariant -/
+theorem static_frame_state_equal : FullStatement_static_frame_state_equal :=
+  fun cfg f rest w n hf _ hbal t => static_frame_state_equal_evm cfg f rest w n hf hbal t
+
+/-- non-vacuity: the static frame of the section's example with nothing below it, zero steps and one step (`SSTORE` in
+static mode halts the frame: the run ends, no state above the frame is left) -/
+example : StepsAbove (sampleEnv.toCfg 17) 0
+    (.run [{ kind := .call 0 0, checkpoint := (Journal.checkpoint sampleWorld.js).2,
+             interp := Interp.IState.init [0x55] [] 100000 true 17 0 0 0 {} Memory.new }] sampleWorld)
+    (.run [{ kind := .call 0 0, checkpoint := (Journal.checkpoint sampleWorld.js).2,
+             interp := Interp.IState.init [0x55] [] 100000 true 17 0 0 0 {} Memory.new }] sampleWorld) :=
+  .refl _
 
 /-! ## 6. ether conservation (C08)
 
